@@ -21,7 +21,7 @@
      the header bytes found there (the harness walks the packet with the library's parser; TLC re-derives
      the split with Framing!Parse), and per stream after the call: gb = OPUS_GET_BITRATE, p9 = bitrate_bps
      the stream encoder worked with, bw = bandwidth, md = mode, fm = user_forced_mode, lf = LFE flag,
-     fc = OPUS_GET_FORCE_CHANNELS. */
+     fc = OPUS_GET_FORCE_CHANNELS; mgb / mgr = OPUS_GET_BITRATE of the multistream object and its return code. */
 #include "hx_common.h"
 #include "opus.h"
 #include "opus_multistream.h"
@@ -149,7 +149,12 @@ static int run_x(char *line)
       for (i = 0; i < ch && i < 255; i++) map[i] = (unsigned char)i;
    } else return -1;
    js_open("x"); js_str("cmd", cmd); js_str("kind", kind); js_int("f", fam); js_int("ch", ch); js_int("fs", fs); js_int("app", app);
+   if (!strcmp(kind, "enc")) { int m0[MAXCH + 8]; for (i = 0; i < ch; i++) m0[i] = map[i]; js_int("S0", S); js_int("C0", C); js_key("map0"); js_ints(m0, ch); }
    js_int("ok", (o.me || o.pe) && err == OPUS_OK); js_int("err", err);
+   if (!strcmp(kind, "surr")) {
+      js_int("szs", opus_multistream_surround_encoder_get_size(ch, fam));
+      js_int("szm", (o.me && S >= 1 && C >= 0) ? opus_multistream_encoder_get_size(S, C) : -1);
+   }
    if (!o.me && !o.pe) { js_key("st"); printf("[]"); js_close(); return 0; }
    if (ch < 1 || ch > 255 || S < 1 || S > 255 || C < 0 || C > S) { js_int("S", S); js_int("C", C); js_key("st"); printf("[]"); js_close(); goto out; }
    o.ch = ch; o.S = S; o.C = C; o.fs = fs;
@@ -198,6 +203,8 @@ static int run_x(char *line)
             printf("{\"o\":\"E\",\"q\":%ld,\"mb\":%d,\"n\":%d,\"g\":%d", v1, maxb, n, g);
             if (n > 0 && n <= maxb && g) log_split(out.p, n, S); else { js_key("so"); printf("[]"); js_key("sh"); printf("[]"); }
             log_streams(&o);
+            { opus_int32 mg = -7777; int r = o.me ? opus_multistream_encoder_ctl(o.me, OPUS_GET_BITRATE(&mg)) : opus_projection_encoder_ctl(o.pe, OPUS_GET_BITRATE(&mg));
+              printf(",\"mgb\":%d,\"mgr\":%d", (int)mg, r); }
             putchar('}');
             if (!g) { printf("]}\n"); fflush(stdout); abort(); }
          }
